@@ -373,10 +373,237 @@ Definition markupsafe_markup_xss (cfg : jv) (c : ctx) : res (option rissue) :=
     if al then Ok None
     else Ok (Some (markup_issue q (match c_name c with Some s => s | None => s2p "None" end))).
 
+(* ------------------------------------------------------------------------------------------------ *)
+(* B703 django_mark_safe (django_xss.py)                                                             *)
+
+(* what DeepAssignation.is_assigned returns: False, one AST object, or a list of AST objects *)
+Inductive asg := AFalse | ANode (n : node) | AList (l : list node).
+
+(* is_assigned_in: truthy results are appended (objects) or spliced in (lists) *)
+Definition asg_flat (a : asg) : list node :=
+  match a with AFalse => [] | ANode n => [n] | AList l => l end.
+
+Definition node_line (n : node) : Z := match lineno_of n with Some l => l | None => 0%Z end.
+
+(* DeepAssignation(var_name=Name(id)).is_assigned(node); ignore_nodes is never supplied by the plugin *)
+Fixpoint is_assigned (id : pstr) (n : node) : res asg :=
+  match n with
+  | Node c _ fs =>
+      let in_field (f : string) : res (list node) :=        (* self.is_assigned_in(node.<f>) *)
+        (fix find (l : list (string * node)) : res (list node) :=
+           match l with
+           | [] => Ok []
+           | (k, v) :: t =>
+               if String.eqb f k then
+                 match v with
+                 | NList its =>
+                     (fix go (is : list node) : res (list node) :=
+                        match is with
+                        | [] => Ok []
+                        | i :: is' => do a <- is_assigned id i;; do r <- go is';; Ok (asg_flat a ++ r)
+                        end) its
+                 | _ => Ok []
+                 end
+               else find t
+           end) fs in
+      if String.eqb c "Expr" then
+        (fix find (l : list (string * node)) : res asg :=
+           match l with
+           | [] => Ok AFalse
+           | (k, v) :: t => if String.eqb "value" k then is_assigned id v else find t
+           end) fs
+      else if String.eqb c "FunctionDef" then
+        (* the loop over node.args.args tests isinstance(name, ast.Name): ast.arg objects never are *)
+        do l <- in_field "body";; Ok (AList l)
+      else if String.eqb c "With" then
+        let hits := map (fun it => getattr_id_is (field "optional_vars" it) id) (field_list "items" n) in
+        if forallb (fun b => b) hits then
+          Ok (match hits with [] => AFalse | _ => ANode n end)
+        else
+          do l <- in_field "body";;
+          Ok (if last hits false then ANode n else AList l)
+      else if String.eqb c "Try" then
+        do a <- in_field "body";; do b <- in_field "handlers";;
+        do c' <- in_field "orelse";; do d <- in_field "finalbody";;
+        Ok (AList (a ++ b ++ c' ++ d))
+      else if String.eqb c "ExceptHandler" then
+        do a <- in_field "body";; Ok (AList a)
+      else if String.eqb c "If" || String.eqb c "For" || String.eqb c "While" then
+        do a <- in_field "body";; do b <- in_field "orelse";; Ok (AList (a ++ b))
+      else if String.eqb c "AugAssign" then
+        let target := field "target" n in
+        if is_cls "Name" target && pstr_eqb (name_id target) id then Ok (ANode (field "value" n))
+        else Ok AFalse
+      else if String.eqb c "Assign" then
+        match field_list "targets" n with
+        | [] => Ok AFalse
+        | target :: _ =>
+            let value := field "value" n in
+            if is_cls "Name" target then
+              if pstr_eqb (name_id target) id then Ok (ANode value) else Ok AFalse
+            else if is_cls "Tuple" target && is_cls "Tuple" value then
+              (fix scan (ts : list node) (pos : nat) : res asg :=
+                 match ts with
+                 | [] => Ok AFalse
+                 | t :: ts' =>
+                     match field_opt "id" t with
+                     | Some (NId s) =>
+                         if pstr_eqb s id then
+                           match nth_error (field_list "elts" value) pos with
+                           | Some v => Ok (ANode v)
+                           | None => Raise IndexError
+                           end
+                         else scan ts' (S pos)
+                     | _ => Raise AttributeError          (* name.id on a non-Name target element *)
+                     end
+                 end) (field_list "elts" target) O
+            else Ok AFalse
+        end
+      else Ok AFalse
+  | _ => Ok AFalse
+  end.
+
+(* for name in parent.args.args: if name.arg == xss_var.id  (parent a FunctionDef) *)
+Definition is_param (parent : node) (id : pstr) : bool :=
+  is_cls "FunctionDef" parent &&
+  existsb (fun a => match field "arg" a with NId s => pstr_eqb s id | _ => false end)
+          (field_list "args" (field "args" parent)).
+
+(* the mutually recursive evaluate_var / evaluate_call / the worklist loop of evaluate_call *)
+Inductive xtask :=
+| TVar (id : pstr) (until : Z)                 (* evaluate_var(Name(id), parent, until) *)
+| TCall (call : node)                          (* evaluate_call(call, parent) *)
+| TArgs (lineno : Z) (queue : list node).      (* one sweep of "for arg in args" (args grows while iterated) *)
+
+(* "<str literal>.format(...)" without keywords *)
+Definition is_format_call (call : node) : bool :=
+  is_cls "Call" call && is_cls "Attribute" (field "func" call)
+  && is_Str (field "value" (field "func" call))
+  && pstr_eqb (attr_of (field "func" call)) (s2p "format")
+  && match field_list "keywords" call with [] => true | _ => false end.
+
+Definition is_starred_display (a : node) : bool :=
+  is_cls "Starred" a && (is_cls "List" (field "value" a) || is_cls "Tuple" (field "value" a)).
+
+(* The recursion of django_xss is not structural (and not always terminating: see the report); the fuel
+   bounds the recursion depth and running out of it is Python's RecursionError. *)
+Fixpoint xss_eval (fuel : nat) (parent : node) (t : xtask) : res bool :=
+  match fuel with
+  | O => Raise OtherError
+  | S f =>
+      match t with
+      | TVar id until =>
+          if is_param parent id then Ok false
+          else
+            (fix loop (body : list node) (secure : bool) : res bool :=
+               match body with
+               | [] => Ok secure
+               | st :: rest =>
+                   if Z.geb (node_line st) until then Ok secure
+                   else
+                     do to <- is_assigned id st;;
+                     match to with
+                     | AFalse => loop rest secure
+                     | ANode v =>
+                         if is_Str v then loop rest true
+                         else if is_cls "Name" v then
+                           do s <- xss_eval f parent (TVar (name_id v) (node_line v));; loop rest s
+                         else if is_cls "Call" v then
+                           do s <- xss_eval f parent (TCall v);; loop rest s
+                         else Ok false
+                     | AList [] => loop rest secure
+                     | AList l =>
+                         do ok <- (fix all (l : list node) : res bool :=
+                                     match l with
+                                     | [] => Ok true
+                                     | x :: l' =>
+                                         if is_Str x then all l'
+                                         else if is_cls "Name" x then
+                                           do s <- xss_eval f parent (TVar (name_id x) (node_line st));;
+                                           if s then all l' else Ok false
+                                         else Ok false
+                                     end) l;;
+                         if ok then loop rest true else Ok false
+                     end
+               end) (field_list "body" parent) false
+      | TCall call =>
+          if is_format_call call
+          then xss_eval f parent (TArgs (node_line call) (field_list "args" call))
+          else Ok false
+      | TArgs ln queue =>
+          (fix go (q pending : list node) : res bool :=
+             match q with
+             | [] => match pending with [] => Ok true | _ => xss_eval f parent (TArgs ln pending) end
+             | a :: q' =>
+                 if is_Str a then go q' pending
+                 else if is_cls "Name" a then
+                   do s <- xss_eval f parent (TVar (name_id a) ln);; if s then go q' pending else Ok false
+                 else if is_cls "Call" a then
+                   do s <- xss_eval f parent (TCall a);; if s then go q' pending else Ok false
+                 else if is_starred_display a then go q' (pending ++ field_list "elts" (field "value" a))
+                 else Ok false
+             end) queue []
+      end
+  end.
+
+Definition xss_fuel (parent : node) : nat := S (3 * node_size parent).
+
+(* while not isinstance(parent, (ast.Module, ast.FunctionDef)): parent = parent._bandit_parent *)
+Definition is_scope (n : node) : bool := is_cls "Module" n || is_cls "FunctionDef" n.
+Definition enclosing_scope (c : ctx) : res node :=
+  match find (fun p => is_scope (fst p)) (c_parents c) with
+  | Some (p, _) => Ok p
+  | None => Raise AttributeError
+  end.
+
+(* transform2call: "<lit> % x" seen as "<lit>".format(x) / .format of the tuple elements *)
+Definition transform2call (v : node) : node :=
+  let right := field "right" v in
+  Node "Call" (pos_of v)
+       [("func", Node "Attribute" None [("value", field "left" v); ("attr", NId (s2p "format"))]);
+        ("args", NList (if is_cls "Tuple" right then field_list "elts" right else [right]));
+        ("keywords", NNone)].
+
+Definition is_mod_of_literal (v : node) : bool :=
+  is_cls "BinOp" v && is_cls "Mod" (field "op" v) && is_Str (field "left" v).
+
+(* check_risk's verdict *)
+Definition mark_safe_secure (c : ctx) (xss : node) : res bool :=
+  if is_cls "Name" xss then
+    do parent <- enclosing_scope c;;
+    if is_param parent (name_id xss) then Ok false
+    else xss_eval (xss_fuel parent) parent (TVar (name_id xss) (node_line (c_node c)))
+  else if is_cls "Call" xss then
+    do parent <- enclosing_scope c;; xss_eval (xss_fuel parent) parent (TCall xss)
+  else if is_mod_of_literal xss then
+    do parent <- enclosing_scope c;; xss_eval (xss_fuel parent) parent (TCall (transform2call xss))
+  else Ok false.
+
+Definition mark_safe_issue : rissue :=
+  RIssue MEDIUM HIGH 80 (s2p "Potential XSS on mark_safe function.") None None None None.
+
+Definition mark_safe_names : list pstr :=
+  [s2p "mark_safe"; s2p "SafeText"; s2p "SafeUnicode"; s2p "SafeString"; s2p "SafeBytes"].
+
+Definition mark_safe_applies (c : ctx) : bool :=
+  is_module_imported_like c (s2p "django.utils.safestring")
+  && match c_name c with Some n => mem_pstr n mark_safe_names | None => false end.
+
+Definition django_mark_safe (_ : jv) (c : ctx) : res (option rissue) :=
+  if mark_safe_applies c then
+    match field_list "args" (c_node c) with
+    | [] => Raise IndexError
+    | xss :: _ =>
+        if is_Str xss then Ok None
+        else do s <- mark_safe_secure c xss;; if s then Ok None else Ok (Some mark_safe_issue)
+    end
+  else Ok None.
+
 Definition inject_plugins : list plugin :=
   [ Plugin (s2p "hardcoded_sql_expressions") hardcoded_sql_expressions;
     Plugin (s2p "django_extra_used") django_extra_used;
     Plugin (s2p "django_rawsql_used") django_rawsql_used;
     Plugin (s2p "jinja2_autoescape_false") jinja2_autoescape_false;
     Plugin (s2p "use_of_mako_templates") use_of_mako_templates;
-    Plugin (s2p "markupsafe_markup_xss") markupsafe_markup_xss ].
+    Plugin (s2p "markupsafe_markup_xss") markupsafe_markup_xss;
+    Plugin (s2p "django_mark_safe") django_mark_safe ].
